@@ -22,6 +22,25 @@ def manifest_state(root):
     return out
 
 
+def covered_by_ignore(root, top, sub, o):
+    """update_entries_for_directory's contract (as update_entry_for_path's): the path must not be covered by IGNORE"""
+    if any(c.startswith('.') for c in sub.split('/')):
+        return True                 # hidden directories are ignored implicitly
+    try:
+        l = updimpl.make_loader(root, top, o)
+        e = l.find_path_entry(sub)
+        if e is not None and e.tag == 'IGNORE':
+            return True
+        l.load_manifests_for_path(sub)
+        for mpath, relpath, m in l._iter_manifests_for_path(sub):
+            for e in m.entries:
+                if e.tag == 'IGNORE' and updimpl.starts_with(sub, os.path.normpath(os.path.join(relpath, e.path))):
+                    return True
+    except Exception:
+        return True
+    return False
+
+
 class shuffled_scandir:
     """os.scandir returning names in an order drawn from the PRNG (os.walk uses it)"""
     def __init__(self, rng):
@@ -183,6 +202,24 @@ def one_case(ctx, drv):
             model, req = c03.model_update(drv, rr, top, '', o, eff2, world)
             if 'writes' in model and model['writes']:
                 ctx.disagree('update(idempotent)', dict(scen, request=req), {'writes': []}, {'writes': [w[:2] for w in model['writes']]})
+            # ... and so does an update limited to a sub-directory (the Manifests above it are refreshed only when they changed)
+            dirs = sorted(os.path.relpath(dp, rr) for dp, dn, fn in os.walk(rr) if dp != rr)
+            for sub in rng.sample(dirs, min(len(dirs), 2)):
+                if covered_by_ignore(rr, top, sub, o):
+                    ctx.count('sub-directory-rerun:skipped (the path is covered by IGNORE or hidden: outside the API contract)')
+                    continue
+                before = manifest_state(rr)
+                out3, eff3 = updimpl.run_update(rr, top, sub, o)
+                after = manifest_state(rr)
+                ctx.count('sub-directory-rerun:' + ('ok' if 'ok' in out3 else out3['err']))
+                if 'ok' in out3 and before != after:
+                    ch = sorted(p for p in set(before) | set(after) if before.get(p) != after.get(p))
+                    ctx.fail('second-update-rewrites', dict(scen, rewritten=ch, path=sub), f'update of {sub!r}: {ch}')
+                if 'ok' in out3:
+                    model, req = c03.model_update(drv, rr, top, sub, o, eff3, trees.world_of(rr, set(eff3['hashes'])))
+                    if 'writes' in model and model['writes']:
+                        ctx.disagree('update(idempotent, sub-directory)', dict(scen, request=req, path=sub), {'writes': []},
+                                     {'writes': [w[:2] for w in model['writes']]})
     finally:
         keep = os.environ.get('VERIF_KEEP')
         if keep and len(ctx.failures) > n_fail0:
@@ -199,7 +236,8 @@ def run(ctx):
     ctx.rule = ('generated trees with at most one Manifest per directory, edits, profiles default/ebuild, hash sets, watermarks and '
                 'formats; replica B has the entries of every prior Manifest shuffled and runs with os.scandir shuffled. Oracle: after '
                 'update (and a forced rewrite) the bytes of every Manifest are equal across replicas; a second update of the '
-                'unchanged tree leaves bytes and st_mtime_ns of every Manifest; the model queues no write for the second update.')
+                'unchanged tree - the whole tree, then up to two sub-directories - leaves bytes and st_mtime_ns of every Manifest; the '
+                'model queues no write for those updates.')
     ctx.assumptions = ['byte-determinism of the codecs is exercised, not proved']
     drv = common.Driver()
     try:
